@@ -31,4 +31,11 @@ theorem closureTables_agree :
   · intro op h; cases op <;> first | exact ⟨rfl, rfl⟩ | (simp [hessFastOp] at h)
   · intro op; cases op <;> decide
 
+/-- the replacement values of `_sanitize_derivatives` (regenerated from its one `np.nan_to_num` call; any other
+    shape of the function — a clip, a mask, a second call — is rejected by the translator) are the ones the model
+    `Py.DerivAlg.nanToNum` / `SV.nanToNum` uses: NaN ↦ 0, +∞ ↦ `_LARGE_GRADIENT`, −∞ ↦ −`_LARGE_GRADIENT` -/
+theorem sanitizeShape_agrees :
+    sanitizeNan = 0 ∧ sanitizePosInf = Py.largeGradient ∧ sanitizeNegInf = -Py.largeGradient := by
+  refine ⟨rfl, rfl, rfl⟩
+
 end Optyx.Props.Closures
